@@ -320,12 +320,15 @@ func c19RoundTrip(r *run.Run) {
 				if strings.Contains(menu[k].Name, "has no mark glyph") {
 					c.Skip("the language numbers mark classes by the marks that use them: a class without marks has no notation")
 				}
+				if strings.Contains(menu[k].Name, "for classes without a glyph") {
+					c.Skip("the language writes a class as the list of its glyphs: trailing classes without glyphs have no notation")
+				}
 				subs := menu[k].Sub()
 				desc = menu[k].Name
 				if gpos {
 					// several subtables in one GPOS lookup ("||"): every menu entry of the same type
 					if k2 := c.Choose(len(menu)+1, "second subtable"); k2 > 0 {
-						if menu[k2-1].Type != menu[k].Type || strings.Contains(menu[k2-1].Name, "has no mark glyph") {
+						if menu[k2-1].Type != menu[k].Type || strings.Contains(menu[k2-1].Name, "has no mark glyph") || strings.Contains(menu[k2-1].Name, "for classes without a glyph") {
 							c.Skip("different lookup type / no notation")
 						}
 						subs = append(subs, menu[k2-1].Sub()...)
